@@ -167,6 +167,73 @@ FftFrames(p, ins) ==
                    SumSeq([j \in 1 .. p.size |-> CIm(x[k - 1 + j])]))
         ELSE NoNum] >>
 
+(* ---- FIR / FFT filters (C11) ---------------------------------------------- *)
+(* Linear convolution with zero pre-history: y[k] = sum_j taps[j] * x[k-j+1]. *)
+(* The FIR block emits the sliding dot product over whole windows only, i.e.  *)
+(* y[(i-1)*deci + ntaps]; the FFT filters emit y[1..] in whole blocks of      *)
+(* FftSize(ntaps) - ntaps samples: FFT output = FIR output delayed by         *)
+(* ntaps - 1 samples.                                                         *)
+X0(x, k) == IF k >= 1 /\ k <= Len(x) THEN x[k] ELSE 0
+RECURSIVE DotFrom(_, _, _, _)
+DotFrom(taps, x, base, j) ==
+  IF j > Len(taps) THEN 0 ELSE taps[j] * X0(x, base - j) + DotFrom(taps, x, base, j + 1)
+ConvAt(taps, x, k) == DotFrom(taps, x, k + 1, 1)
+(* complex samples and taps in packed form *)
+XC(x, k) == IF k >= 1 /\ k <= Len(x) THEN <<CRe(x[k]), CIm(x[k])>> ELSE <<0, 0>>
+RECURSIVE DotFromC(_, _, _, _)
+DotFromC(taps, x, base, j) ==
+  IF j > Len(taps) THEN <<0, 0>>
+  ELSE LET t == taps[j] v == XC(x, base - j) r == DotFromC(taps, x, base, j + 1)
+       IN <<t[1] * v[1] - t[2] * v[2] + r[1], t[1] * v[2] + t[2] * v[1] + r[2]>>
+ConvAtC(taps, x, k) == LET r == DotFromC(taps, x, k + 1, 1) IN CPack(r[1], r[2])
+FirCount(len, nt, deci) == IF len - nt + 1 > 0 THEN (len - nt + 1) \div deci ELSE 0
+FirFn(p, ins) ==
+  LET x == ins[1] nt == Len(p.taps) IN
+  << [i \in 1 .. FirCount(Len(x), nt, p.deci) |-> ConvAt(p.taps, x, (i - 1) * p.deci + nt)] >>
+FirFnC(p, ins) ==
+  LET x == ins[1] nt == Len(p.taps) IN
+  << [i \in 1 .. FirCount(Len(x), nt, p.deci) |-> ConvAtC(p.taps, x, (i - 1) * p.deci + nt)] >>
+NextPow2(n) == CHOOSE q \in {2 ^ k : k \in 0 .. 14} : q >= n /\ (q = 1 \/ q \div 2 < n)
+FftSize(nt) == 2 * NextPow2(nt)
+FftBlock(nt) == FftSize(nt) - nt
+FftFiltFn(p, ins) ==
+  LET x == ins[1] ns == FftBlock(Len(p.taps)) IN
+  << [k \in 1 .. ns * (Len(x) \div ns) |-> ConvAt(p.taps, x, k)] >>
+FftFiltFnC(p, ins) ==
+  LET x == ins[1] ns == FftBlock(Len(p.taps)) IN
+  << [k \in 1 .. ns * (Len(x) \div ns) |-> ConvAtC(p.taps, x, k)] >>
+(* FastFM: y[n] = (im[n] - im[n-2]) * re[n-1] - (re[n] - re[n-2]) * im[n-1]   *)
+FastFmFn(p, ins) ==
+  LET x == ins[1] IN
+  << [k \in 1 .. Len(x) |->
+        LET s == XC(x, k) q1 == XC(x, k - 1) q2 == XC(x, k - 2)
+        IN (s[2] - q2[2]) * q1[1] - (s[1] - q2[1]) * q1[2]] >>
+(* Quadrature demodulation of samples on the 8 principal directions, in      *)
+(* eighth turns: arg(x[n] * conj(x[n-1])) with arg(0) = 0.                    *)
+Arg8(re, im) ==
+  IF re = 0 /\ im = 0 THEN 0
+  ELSE IF im = 0 THEN (IF re > 0 THEN 0 ELSE 4)
+  ELSE IF re = 0 THEN (IF im > 0 THEN 2 ELSE -2)
+  ELSE IF re = im THEN (IF re > 0 THEN 1 ELSE -3)
+  ELSE IF re = -im THEN (IF re > 0 THEN -1 ELSE 3)
+  ELSE 99                                  \* not a principal direction
+QuadDemod8(p, ins) ==
+  LET x == ins[1] IN
+  << [k \in 1 .. Len(x) |->
+        LET s == XC(x, k) q == XC(x, k - 1)
+            re == s[1] * q[1] + s[2] * q[2]
+            im == s[2] * q[1] - s[1] * q[2]
+        IN p.gain8 * Arg8(re, im)] >>
+(* Single-pole IIR with alpha = 1/2^a: y[n] = alpha x[n] + (1 - alpha) y[n-1]; *)
+(* values scaled by 2^(a*n) stay integers: compared for the first p.n samples *)
+(* at the fixed scale 2^(a * p.n).                                            *)
+RECURSIVE SpIirFrom(_, _, _, _, _)
+SpIirFrom(a, x, k, prev, scale) ==
+  \* prev is y[k-1] * scale
+  IF k > Len(x) THEN <<>>
+  ELSE LET y == (x[k] * scale + (2 ^ a - 1) * prev) \div (2 ^ a) IN <<y>> \o SpIirFrom(a, x, k + 1, y, scale)
+SpIirFn(p, ins) == << SpIirFrom(p.a, ins[1], 1, 0, p.scale) >>
+
 (* Stream to PDU (tag-driven): a sample tagged `true` starts a burst and is *)
 (* kept; a sample tagged `false` is dropped and p.tail more samples are     *)
 (* kept; the burst is emitted when the next sample after the tail arrives;  *)
